@@ -56,6 +56,11 @@ theorem pass_range_growth (passes : Array PassT) (c : Ctx) (lo hi fuel : Nat) (c
     (h : runRange passes c lo hi fuel = .ok (some c')) (hpos : 0 ≤ c.seg.numGlyphs) :
     c'.seg.numGlyphs ≤ c.seg.numGlyphs * 64 ∨ c'.seg.numGlyphs = c.seg.numGlyphs := runRange_growth passes c lo hi fuel c' h hpos
 
+/-- the same for a call of `Silf::runGraphite` that contains the bidi step -/
+theorem silf_call_growth (passes : Array PassT) (bPass : Nat) (c : Ctx) (lo hi : Nat) (dobidi : Bool) (fuel : Nat) (c' : Ctx)
+    (h : runPhase passes bPass c lo hi dobidi fuel = .ok (some c')) (hpos : 0 ≤ c.seg.numGlyphs) :
+    c'.seg.numGlyphs ≤ c.seg.numGlyphs * 64 ∨ c'.seg.numGlyphs = c.seg.numGlyphs := runPhase_growth passes bPass c lo hi dobidi fuel c' h hpos
+
 /-- running code consumes its instruction list: the loop is defined by recursion on it (stated for the record: after the
 first instruction the rest of the list is what remains to be run) -/
 theorem code_runs_each_instruction_once (i : Instr) (rest : List Instr) (s : St) :
